@@ -28,6 +28,10 @@
 //!             the radix tree gets depth N; insert / find / trace / cache / Clone / Drop / remove / retain are recursive) in a CHILD
 //!             process on a thread with an explicit stack of K KiB; obs {"n","stack_kib","level","outcome": "ok"|"abort"|"timeout",
 //!             "failed_op"}; an abort by stack overflow is the known finding `deep-tree-stack-overflow` (the driver abstains)
+//!   addr_parse {"s": str, "std": {text: {"ip": text|null, "sock": [text, port]|null}}}   `str::parse::<http::Addr>()` — obs {"addr": null | [ip text,
+//!             port|null]} compared with Model/AddrParse.lean; "std" = what the real std parsers answer for the trimmed text (recorded
+//!             by `gen`, re-validated by `run`)
+//!   log_ips   {"client_ip", "headers": [[n, v]], "std": {..}}   the `ips` of the real `Log::from_proxy` compared with Model/LogParse.lean
 //!   transform {"kind", "options", "s"}                                                  every marker transformer through api::Transformer
 //!   slice     {"s": hex, "from": n, "to": n|null}         Slice::transform — compared with the Lean model (obs {"out": hex})
 //!   ffi_null  {"fn": name, "nulls": [bool]}               one extern "C" function under one null pattern of its nullable
@@ -471,6 +475,80 @@ fn gen_marker_transform(rng: &mut Prng) -> Value {
         "config": {"ignore_host_case": rng.chance(1, 2), "ignore_header_case": rng.chance(1, 2), "always_match_any_host": rng.chance(1, 2)}})
 }
 
+/// what the real std parsers answer for one text (the `Std` parameter of the Lean models)
+fn std_entry(t: &str) -> Value {
+    let ip = t.parse::<std::net::IpAddr>().ok().map(|a| a.to_string());
+    let sock = t.parse::<std::net::SocketAddr>().ok().map(|a| json!([a.ip().to_string(), a.port()]));
+    json!({"ip": ip, "sock": sock})
+}
+
+fn addr_trim(t: &str) -> &str {
+    t.trim_matches(|c| c == '\0' || c == '\n' || c == '\r' || c == '\t' || c == ' ')
+}
+
+/// every text the library can hand to the std parsers for these inputs (an over-approximation is harmless)
+fn std_table(client_ip: &str, headers: &[(String, String)]) -> Value {
+    let mut m = serde_json::Map::new();
+    let mut add = |t: &str| {
+        m.insert(addr_trim(t).to_string(), std_entry(addr_trim(t)));
+    };
+    add(client_ip);
+    for (_, v) in headers {
+        for piece in v.split(',') {
+            add(piece);
+        }
+        for pair in v.split(';').flat_map(|x| x.split(',')) {
+            let mut it = pair.trim().splitn(2, '=');
+            if let (Some(_), Some(val)) = (it.next(), it.next()) {
+                add(val.trim().trim_start_matches('"').trim_end_matches('"'));
+            }
+        }
+    }
+    Value::Object(m)
+}
+
+/// executable specification of `Addr::from_str` (what DESIGN / the Lean closed forms say): trim, IpAddr, else SocketAddr
+fn spec_addr(t: &str) -> Option<(String, Option<u16>)> {
+    let t = addr_trim(t);
+    if let Ok(ip) = t.parse::<std::net::IpAddr>() {
+        return Some((ip.to_string(), None));
+    }
+    t.parse::<std::net::SocketAddr>().ok().map(|a| (a.ip().to_string(), Some(a.port())))
+}
+
+/// executable specification of the `ips` of `Log::from_proxy`
+fn spec_ips(client_ip: &str, headers: &[(String, String)]) -> Vec<String> {
+    let mut out: Vec<String> = spec_addr(client_ip).map(|a| a.0).into_iter().collect();
+    for (n, v) in headers {
+        if n.to_lowercase() == "x-forwarded-for" {
+            out.extend(v.split(',').filter_map(|p| spec_addr(p).map(|a| a.0)));
+        }
+        if n.to_lowercase() == "forwarded" {
+            for pair in v.split(';').flat_map(|x| x.split(',')) {
+                let mut it = pair.trim().splitn(2, '=');
+                if let (Some(name), Some(val)) = (it.next(), it.next()) {
+                    if name.trim().to_lowercase() == "for" {
+                        out.extend(spec_addr(val.trim().trim_start_matches('"').trim_end_matches('"')).map(|a| a.0));
+                    }
+                }
+            }
+        }
+    }
+    out
+}
+
+fn addr_case(s: &str) -> Value {
+    json!({"family": "addr_parse", "s": s, "std": std_table(s, &[])})
+}
+
+fn log_ips_case(client_ip: &str, headers: Vec<(String, String)>) -> Value {
+    json!({"family": "log_ips", "client_ip": client_ip, "headers": headers.iter().map(|(n, v)| json!([n, v])).collect::<Vec<_>>(), "std": std_table(client_ip, &headers)})
+}
+
+const ADDR_TEXTS: &[&str] = &["127.0.0.1", "127.0.0.1:8080", "::1", "[::1]:8080", "[::1]", "[::1]:", "[::1%1]:80", "1.2.3.4:65535", "1.2.3.4:65536", "1.2.3.4:080", "01.2.3.4", "1.2.3", "1.2.3.4.5",
+    "::ffff:1.2.3.4", "[::ffff:1.2.3.4]:1", "2001:db8::1", "2001:DB8::1", "fe80::1%eth0", "invalid", "", ":", "[", "]", "[]:1", "1.2.3.4 :80", "1.2.3.4: 80", "１.２.３.４", "1.2.3.4\u{a0}", "0x7f.0.0.1", "255.255.255.255:0"];
+const FWD_NAMES: &[&str] = &["X-Forwarded-For", "x-forwarded-for", "X-FORWARDED-FOR", "Forwarded", "forwarded", "FORWARDED", "Forwarded ", "X-Forwarded-Host", "User-Agent", "for"];
+
 /// hand-parsed header values (api/log.rs: `Forwarded`, `X-Forwarded-For`): grammar pieces glued at random, with brackets,
 /// quotes, ports, obfuscated identifiers, empty items, stray separators and multi-byte characters
 fn forwarded_value(rng: &mut Prng) -> String {
@@ -575,6 +653,12 @@ fn gen_hinted(h: &Hints, rng: &mut Prng, emit: &mut dyn FnMut(Value)) {
         }
         for f in FFI_STR_FUNCS {
             emit(json!({"family": "ffi_str", "fn": f, "payload": hex(t.as_bytes())}));
+        }
+        for a in ["1.2.3.4", "[::1]:80", ""] {
+            for v in [format!("{t}{a}"), format!("{a}{t}"), format!("{t}{a}{t}"), format!("[{t}]:80")] {
+                emit(addr_case(&v));
+                emit(log_ips_case(&v, vec![("Forwarded".to_string(), format!("for={v};{t}=x,for=\"{v}\"")), ("X-Forwarded-For".to_string(), format!("{v},{t},{v}")), (t.to_string(), v.clone())]));
+            }
         }
         emit(json!({"family": "api_misc", "uri": t, "host": t, "scheme": t, "method": t, "headers": [[t, t], ["Host", t], ["Forwarded", t]], "ip": t, "action_json": t, "dates": [t, t], "times": [t, t], "weekdays": [t], "cidrs": [t, t], "strs": [t, t, t, t], "code": 200}));
         let mut mt = gen_marker_transform(rng);
@@ -684,6 +768,24 @@ fn gen(args: &Args, emit: &mut dyn FnMut(Value)) {
             };
             for name in ["Forwarded", "X-Forwarded-For"] {
                 emit(json!({"family": "log", "request": {"url": "/", "headers": []}, "headers": [[name, value]], "client_ip": *v, "proxy": "p", "time": 1, "legacy": null, "exh": true}));
+            }
+        }
+    }
+    // Addr::from_str: the unit-test fixtures of addr.rs, the adversarial pool, every text padded with the trimmed characters (and
+    // with characters that are NOT trimmed) on either side
+    for t in ADDR_TEXTS.iter().chain(FORWARDED_FIXED.iter()) {
+        emit(addr_case(t));
+        for pad in ["\u{0}", "\n", "\r", "\t", " ", " \t\r\n\u{0}", "\u{b}", "\u{a0}", "\"", "é"] {
+            emit(addr_case(&format!("{pad}{t}")));
+            emit(addr_case(&format!("{t}{pad}")));
+            emit(addr_case(&format!("{pad}{t}{pad}")));
+        }
+    }
+    // Log::from_proxy: every adversarial element under every header name spelling, alone, keyed, quoted, in lists
+    for v in FORWARDED_FIXED.iter().chain(ADDR_TEXTS.iter()) {
+        for value in [v.to_string(), format!("for={v}"), format!("For = \"{v}\" "), format!("for={v};by={v}, FOR=\"\"{v}\"; proto=http;for"), format!("{v}, {v},,{v} ,"), format!("by={v};for=\"{v}")] {
+            for name in ["Forwarded", "x-forwarded-for", "FORWARDED", "X-Forwarded-For"] {
+                emit(log_ips_case(v, vec![(name.to_string(), value.clone()), ("Forwarded".to_string(), format!("for={v}"))]));
             }
         }
     }
@@ -805,6 +907,15 @@ fn gen(args: &Args, emit: &mut dyn FnMut(Value)) {
                     let n = s.len() as u64;
                     let idx = |r: &mut Prng| match r.below(4) { 0 => r.below(n as usize + 2) as u64, 1 => u64::MAX, 2 => n, _ => r.below(4) as u64 };
                     json!({"family": "slice", "s": hex(s.as_bytes()), "from": idx(&mut rng), "to": if rng.chance(1, 4) { Value::Null } else { json!(idx(&mut rng)) }})
+                } else if rng.chance(1, 2) {
+                    let t = if rng.chance(1, 2) { rng.pick(ADDR_TEXTS).to_string() } else { forwarded_value(&mut rng) };
+                    if rng.chance(1, 2) {
+                        let pad = |r: &mut Prng| (0..r.below(3)).map(|_| *r.pick(&["\u{0}", "\n", "\r", "\t", " ", "\u{a0}", "\u{3000}"])).collect::<String>();
+                        addr_case(&format!("{}{}{}", pad(&mut rng), t, pad(&mut rng)))
+                    } else {
+                        let hs: Vec<(String, String)> = (0..rng.below(4)).map(|_| (rng.pick(FWD_NAMES).to_string(), forwarded_value(&mut rng))).collect();
+                        log_ips_case(&t, hs)
+                    }
                 } else if rng.chance(1, 2) {
                     json!({"family": "ffi_str", "fn": *rng.pick(FFI_STR_FUNCS), "payload": hex(&pick_bytes(&mut rng, 80))})
                 } else {
@@ -1420,6 +1531,50 @@ fn run_deep_tree(case: &Value) -> Obs {
     }
 }
 
+fn run_addr_parse(case: &Value) -> Obs {
+    let text = match s(case, "s") {
+        Some(t) => t,
+        None => return Obs::invalid("s"),
+    };
+    if case.get("std") != Some(&std_table(&text, &[])) {
+        return Obs::invalid("stale std table");
+    }
+    let r = text.parse::<redirectionio::http::Addr>();
+    let obs = match &r {
+        Ok(a) => json!({"addr": [a.addr.to_string(), a.port]}),
+        Err(_) => json!({"addr": null}),
+    };
+    if let Ok(a) = &r {
+        let _ = a.to_string();
+    }
+    let o = Obs::new(obs).tag(format!("addr_parse:{}", if r.is_ok() { "ok" } else { "err" }));
+    if r.as_ref().ok().map(|a| (a.addr.to_string(), a.port)) != spec_addr(&text) {
+        return o.fail(format!("Addr::from_str({text:?}) differs from: trim, IpAddr, else SocketAddr = {:?}", spec_addr(&text)), "addr-parse-spec");
+    }
+    o
+}
+
+fn run_log_ips(case: &Value) -> Obs {
+    let client_ip = s(case, "client_ip").unwrap_or_default();
+    let headers: Vec<(String, String)> = header_pairs(case, "headers").into_iter().map(|h| (h.name, h.value)).collect();
+    if case.get("std") != Some(&std_table(&client_ip, &headers)) {
+        return Obs::invalid("stale std table");
+    }
+    let config = RouterConfig::default();
+    let mut request = Request::from_config(&config, "/".to_string(), None, None, None, None, None);
+    for (n, v) in &headers {
+        request.add_header(n.clone(), v.clone(), false);
+    }
+    let log = Log::from_proxy(&request, 200, &[], None, "p", 0, &client_ip);
+    let ips = serde_json::to_value(&log).map(|v| v["ips"].clone()).unwrap_or(Value::Null);
+    let n = ips.as_array().map(|a| a.len()).unwrap_or(0);
+    let o = Obs::new(json!({"ips": ips})).trivial(headers.is_empty()).tag(format!("log_ips:{}", n.min(3)));
+    if ips != json!(spec_ips(&client_ip, &headers)) {
+        return o.fail(format!("Log::from_proxy reports ips {ips}, the specification gives {:?}", spec_ips(&client_ip, &headers)), "log-ips-spec");
+    }
+    o
+}
+
 fn run_transform(case: &Value) -> Obs {
     let t: Transformer = match serde_json::from_value(json!({"type": case.get("kind"), "options": case.get("options")})) {
         Ok(t) => t,
@@ -1846,6 +2001,8 @@ fn run(case: &Value) -> Obs {
         "marker_transform" => run_marker_transform(case),
         "rule_strings" => run_rule_strings(case),
         "deep_tree" => run_deep_tree(case),
+        "addr_parse" => run_addr_parse(case),
+        "log_ips" => run_log_ips(case),
         "slice" => run_slice(case),
         "ffi_null" => run_ffi_null(case),
         "ffi_str" => run_ffi_str(case),
